@@ -33,9 +33,14 @@ def run(chk, tier, proof_ok):
         stats = {}
         findings, divs, stats = domain.run_suite(cases, do_model=True, stats=stats, model_every=1)
 
+    run_findings = domain.random_runs(chk.seed, 'thorough' if full else 'quick', stats)
+    have = {k for k, _, _ in findings}
+    findings += [f for f in run_findings if f[0] not in have]
+
     cov = chk.coverage
     ncalls = sum(v['calls'] for k, v in stats.items() if not k.startswith('_'))
-    cov['evaluations'] = ncalls
+    cov['evaluations'] = ncalls + stats.get('_random_run_proposals', 0)
+    cov['random_run_proposals'] = stats.get('_random_run_proposals', 0)
     cov['distinct_nontrivial'] = stats.get('_distinct', 0)
     cov['rule'] = ('one evaluation = one real jump()/birth call under a scripted generator, judged by the '
                    'property\'s own oracle; non-trivial = consumed at least one base draw or refused; '
